@@ -139,6 +139,10 @@ class ScaleLinearCompuMethod(CompuMethod):
         return seg.convert_internal_to_physical(internal_value)
 
     def is_valid_physical_value(self, physical_value: AtomicOdxType) -> bool:
+        if not self._is_invertible:
+            # no physical value can be converted to an internal one
+            return False
+
         return any(True for seg in self._segments if seg.physical_applies(physical_value))
 
     def is_valid_internal_value(self, internal_value: AtomicOdxType) -> bool:
